@@ -64,7 +64,7 @@ def _one(prefix, n, snaps=2, faults=1, imm=0, env=1, nofree=0, ptr=1, level=1, t
             "VP_VEC_CAP": _cap(n), "VP_NOFREE": nofree, "VP_LEVEL": level}
     name = "%s.compaction-n%d-snaps%d-faults%d-imm%d-env%d-L%d%s%s" % (
         prefix, n, snaps, faults, imm, env, level, "-nofree" if nofree else "", "" if ptr else "-noptr")
-    uw = {"memcpy.0": 10, "memcmp.0": 2,
+    uw = {"memcpy.0": 10, "memcmp.0": 2, "ldb_remove_obsolete_files.0": 1, "ldb_remove_obsolete_files.1": 1,
           "ldb_do_compaction_work.0": n + 1, "ldb_do_compaction_work.1": 2, "ldb_do_compaction_work.2": 3,
           "ldb_do_compaction_work.3": n + 1, "ldb_install_compaction_results.0": n + 1,
           "ldb_cleanup_compaction.0": n + 1, "ldb_cstate_destroy.0": n + 1}
@@ -74,17 +74,15 @@ def _one(prefix, n, snaps=2, faults=1, imm=0, env=1, nofree=0, ptr=1, level=1, t
               "hit per add; %s; %s; %s; compaction level %d; final output sizes 1..256 in disjoint bit fields; %s"
               % (n, snaps,
                  "every builder/file/iterator/install call may fail, the input iterator may fail and stop at any position, shutdown at any position" if faults else "no I/O errors, no shutdown",
-                 "an immutable memtable appears at a symbolic position (ldb_compact_memtable's body removed, effect applied at the broadcast)" if imm else "no immutable memtable",
+                 "an immutable memtable appears at a symbolic position: the real ldb_compact_memtable / ldb_write_level0_table / ldb_remove_obsolete_files run inside the loop over stubs (flush fails or writes no table, empty directory listing)" if imm else "no immutable memtable",
                  "other threads publish sequences at every lock/unlock and release/take snapshots at the first unlock" if env else "no interference",
                  level,
                  "CBMC pointer checks on" if ptr else "CBMC pointer checks off (functional assertions, bounds and overflow checks only); ldb_free is a no-op"))
     return Obl(name, "dbimpl/compact.c", real=REAL, include_real=INC_REAL, kit=KIT, defs=defs,
                unwind=max(n + 3, 10), unwindset=uw, restrict_fp=FP,
-               remove_bodies=["ldb_compact_memtable"] if imm else [],
                tier=tier, timeout=timeout, functions=FUNCS,
                flags=["--slice-formula"] + ([] if ptr else ["--no-pointer-check", "--no-pointer-primitive-check"]),
                no_flags=[] if ptr else ["--pointer-overflow-check"],
-               replay=not imm,   # the native build would run the real ldb_compact_memtable
                desc=DESC, bounds=bounds)
 
 
@@ -126,8 +124,7 @@ META_FRAGMENT = {
     "outside": ["more than 5 entries / 2 user keys per compaction; long keys and values; malformed internal keys in the input "
                 "(kept verbatim by the 'do not hide error keys' branch, not exercised); the real ldb_inputiter_create / merging "
                 "iterator (C07), the real ldb_compaction_is_base_level_for_key (C01.d) and should_stop_before, the real table "
-                "builder (C16) and ldb_versions_apply (C02.d/C17) under the compaction; ldb_compact_memtable inside the "
-                "compaction loop (body removed; decided by the flush obligations); real thread schedules"],
+                "builder (C16) and ldb_versions_apply (C02.d/C17) under the compaction; the flush inside the compaction loop beyond 'fails or writes no table' (decided by the flush obligations); real thread schedules"],
     "models": ["harness/dbimpl/compact.c: input iterator over a sorted symbolic array (fails/stops at a symbolic position), "
                "oracle stubs for base-level and stop-before (checked to be consulted once per key, in order), recorder stubs "
                "for table builder / output file / table-cache re-open / version edit / versions_apply, array model of "
